@@ -28,6 +28,7 @@ if __name__ == '__main__':
 
 from common import REPO as common_REPO
 from props import c09_docs as D
+from props import c10_forms as F
 from props.c09_docs import MAIN, tget, tset, tdel, rename_key
 
 WORKERS = 14
@@ -531,7 +532,7 @@ _WB = {}
 
 def _bases(scratch):
     if not _WB:
-        for b in D.all_bases():
+        for b in D.all_bases() + F.form_bases():
             b.incdir = os.path.join(scratch, 'bases', b.name)
             _WB[b.name] = b
     return _WB
@@ -858,17 +859,29 @@ def run(ctx):
     scratch = os.path.join(ctx.scratch, 'c10i')
     os.makedirs(os.path.join(scratch, 'seen'), exist_ok=True)
     cov = ctx.cov.setdefault('impl', {})
-    bases, good = D.all_bases(), []
+    bases, good = D.all_bases() + F.form_bases(), []
     for b in bases:
         d = b.write(os.path.join(scratch, 'bases'))
         r = D.call_api('from_file', os.path.join(d, MAIN), [d])
         ok = r['outcome'] == 'ok'
+        why = _slim(r)
         if ok:
             out = os.path.join(scratch, 'gen-' + b.name)
-            files = bt.generate(r['value'], out)
-            ok = not D.compile_generated(files, out)
-        if not ok:
-            ctx.corr_broken.append('C10 impl: base document %s is not accepted/compilable (harness bug): %s' % (b.name, _slim(r)))
+            try:
+                files = bt.generate(r['value'], out)
+                fails = D.compile_generated(files, out)
+            except Exception as e:
+                fails = [('generate', repr(e))]
+            ok = not fails
+            why = fails[:1]
+        if not ok and b.name.startswith('v3form-'):
+            # systematic valid documents (every field type position in one form): a refusal is a
+            # defect of the front end, not of the harness
+            ctx.violation('front end is not total: a VALID barectf 3 document (every field type position written in the `%s` form: %s) '
+                          'is not accepted / does not generate / does not compile: %s' % (b.name[7:], ', '.join(b.positions), str(why)[:300]),
+                          {'document': D.dump_file(MAIN, b.doc[MAIN], 3), 'outcome': why})
+        elif not ok:
+            ctx.corr_broken.append('C10 impl: base document %s is not accepted/compilable (harness bug): %s' % (b.name, why))
         else:
             good.append(b)
     bases_by_name = {b.name: b for b in good}
@@ -879,6 +892,12 @@ def run(ctx):
     for name, files, dialect, expect in corpus:
         tasks.append({'kind': 'corpus', 'name': name, 'files': files, 'dialect': dialect, 'expect': expect or '',
                       'all_apis': True, 'keep_files': True, 'faults': []})
+    # 1b. one VALID minimal document per (field type position, form): must load, generate, compile
+    pf = F.position_form_docs()
+    for name, tree in pf:
+        tasks.append({'kind': 'corpus', 'name': 'valid:' + name, 'files': {MAIN: D.dump_file(MAIN, tree, 3)}, 'dialect': 3,
+                      'expect': '=ok', 'all_apis': True, 'keep_files': True, 'faults': []})
+    cov['valid_position_form_documents'] = len(pf)
     # 2. single structural faults
     allf = []
     for b in good:
@@ -951,7 +970,17 @@ def run(ctx):
             corpus_report[t['name']] = {'from_file': oc, 'effective': (r.get('effective') or {}).get('outcome'),
                                         'major_version': (r.get('major_version') or {}).get('outcome'),
                                         'deviations': [k for k, _ in cd]}
-            if t['expect'].startswith('=cpe'):
+            if t['expect'] == '=ok':
+                eff = (r.get('effective') or {}).get('outcome')
+                if oc != 'ok' or r.get('compile_fail') or 'generated' not in r or eff not in (None, 'ok'):
+                    ctx.violation('front end is not total: the VALID barectf 3 document `%s` (field type position = form) is not accepted / '
+                                  'does not generate / does not compile: from_file %s %s, effective %s, %s' % (
+                                      t['name'][6:], oc, (ff.get('exc_type') or ff.get('msg') or '')[:160], eff,
+                                      str(r.get('compile_fail') or '')[:160]),
+                                  {'name': t['name'], 'files': t['files'], 'outcome': corpus_report[t['name']],
+                                   'site': ff.get('site') or ff.get('inner')})
+                    continue
+            elif t['expect'].startswith('=cpe'):
                 # a defect repaired in /repo: the document must now be refused with a configuration error
                 bad = oc != 'cpe' or (t['expect'] == '=cpe-all' and any(
                     (r.get(a) or {}).get('outcome') not in (None, 'cpe') for a in ('effective', 'major_version')))
@@ -1060,6 +1089,7 @@ def run(ctx):
             b = bases_by_name.get(t.get('base'))
             cli_tasks.append({'id': len(cli_tasks), 'scratch': scratch, 'files': r['files'], 'binary': r.get('binary', []),
                               'incdir': b.incdir if b else None, 'cls': cls, 'keys': keys,
+                              'odd_c_type': bool(r.get('odd_c_type')),
                               'api': {a: (r.get(a) or {}).get('outcome') for a in ('from_file', 'effective', 'major_version')}})
     cli_results = D.run_pool(_cli, cli_tasks, workers=WORKERS, chunk=2)
     cli_counts = {'documents': len(cli_tasks), 'by_class': {}, 'same_root_cause_tracebacks': 0, 'deviations': {}}
@@ -1090,7 +1120,8 @@ def run(ctx):
                 problems.append(('CLI-accepted-document-generate-fails', 'generate exits %s: %s' % (g['rc'], g['stderr_tail'][-160:])))
             if g['rc'] == 0 and not any(f.endswith('.c') for f in r['files_made']):
                 problems.append(('CLI-accepted-document-no-output', 'generate exits 0 without output files'))
-            if r.get('compile_fail') and not t['keys']:
+            # (a compile failure caused by the user's own `$c-type` string is not a deviation, as for the API)
+            if r.get('compile_fail') and not t['keys'] and not t.get('odd_c_type'):
                 problems.append(('CLI-generated-C-does-not-compile', '%s' % (r['compile_fail'][0],)))
         else:
             # same root cause as the API deviation: traceback / "Unknown exception" expected
